@@ -395,7 +395,11 @@ func genCase(rng *rand.Rand, i int, quick bool) *caseSpec {
 		}
 	}
 	// mode
-	switch x := rng.IntN(100); {
+	x := rng.IntN(100)
+	if i < 256 {
+		x = x * 88 / 100 // the exit sweep uses the entry points that report an exit status, uncancelled
+	}
+	switch {
 	case x < 22:
 		cs.Mode = "execute"
 	case x < 32:
